@@ -17,6 +17,32 @@ const (
 	iriArray      = "https://" + hostR + "/hostile/array"
 )
 
+// well-formed documents of a kind the place they are named in does not expect (an activity without object, a Tombstone,
+// a collection, a Link, an actor): reachable in every C11 world under /hostile/kind/<Type>
+var oddKinds = []string{"Travel", "Arrive", "Question", "IntransitiveActivity", "Tombstone", "OrderedCollection", "Link", "Person", "Relationship", "Undo", "Accept"}
+
+func iriKind(t string) string { return "https://" + hostR + "/hostile/kind/" + t }
+
+func oddKindDocs() []DocSpec {
+	var out []DocSpec
+	for _, t := range oddKinds {
+		d := J{"@context": asCtx, "type": t, "id": iriKind(t)}
+		switch t {
+		case "Travel", "Arrive", "Question", "IntransitiveActivity":
+			d["actor"] = "https://" + hostR + "/u/dave"
+		case "Link":
+			d["href"] = "https://" + hostR + "/elsewhere"
+		case "Undo", "Accept":
+			d["actor"] = "https://" + hostR + "/u/dave"
+			d["object"] = iriKind("Travel")
+		case "Relationship":
+			d["subject"] = "https://" + hostR + "/u/dave"
+		}
+		out = append(out, DocSpec{iriKind(t), mustJSON(d)})
+	}
+	return out
+}
+
 type jpath []interface{} // string keys and int indices
 
 func enumPaths(v interface{}, cur jpath, depth int, out *[]jpath) {
@@ -45,6 +71,12 @@ func enumPaths(v interface{}, cur jpath, depth int, out *[]jpath) {
 }
 
 var mutOps = []string{"remove", "null", "emptyarray", "emptyobject", "emptystring", "number", "wraparray", "objectnoid", "bool", "iri-missing", "iri-illtyped", "iri-incomplete", "iri-array", "relative", "nested"}
+
+func init() {
+	for _, t := range oddKinds {
+		mutOps = append(mutOps, "iri-kind-"+t)
+	}
+}
 
 func setPath(root interface{}, p jpath, op string) interface{} {
 	if len(p) == 0 {
@@ -76,6 +108,10 @@ func setPath(root interface{}, p jpath, op string) interface{} {
 		repl = iriArray
 	case "relative":
 		repl = "/relative/ref"
+	default:
+		if strings.HasPrefix(op, "iri-kind-") {
+			repl = iriKind(strings.TrimPrefix(op, "iri-kind-"))
+		}
 	case "nested":
 		repl = []interface{}{[]interface{}{"https://" + hostR + "/x"}, map[string]interface{}{"type": []interface{}{}}}
 	}
@@ -284,6 +320,7 @@ func driveC11(c *DriveCtx, r *Rng, k int) {
 			DocSpec{iriIllTyped, mustJSON(J{"@context": asCtx, "type": "Note", "id": iriIllTyped, "content": "not what you expected"})},
 			DocSpec{iriIncomplete, mustJSON(J{"@context": asCtx, "type": "Person", "id": iriIncomplete})},
 			DocSpec{iriArray, json.RawMessage(`[{"type":"Person"}]`)})
+		sp.World.Remote = append(sp.World.Remote, oddKindDocs()...)
 		return sp
 	}
 	rr := r.Fork("knobs")
@@ -317,6 +354,38 @@ func driveC11(c *DriveCtx, r *Rng, k int) {
 				{"@context": asCtx, "type": "Person", "id": id},
 			}))
 		}
+	}
+	if r.Intn(15) == 0 {
+		// deep but finite nesting with generous recursion limits: work must stay proportional to the size of the input
+		var fw *RunSpec
+		for _, sc2 := range cp {
+			if sc2.Name == "inbox/forwarding" {
+				fw = sc2.Make()
+			}
+		}
+		if fw != nil {
+			fw.Property = "C11"
+			a := &fw.World.Servers[0]
+			a.DeliverDepth, a.ForwardDepth = 50, 50
+			depth := 10 + r.Intn(14)
+			var inner interface{} = J{"type": "Note", "id": fmt.Sprintf("https://%s/n/deep%d", hostR, depth), "content": "bottom"}
+			for i := depth - 1; i >= 0; i-- {
+				lvl := J{"type": Pick(r, []string{"Note", "Article"}), "id": fmt.Sprintf("https://%s/n/deep%d", hostR, i)}
+				lvl[Pick(r, []string{"inReplyTo", "inReplyTo", "tag"})] = inner
+				inner = lvl
+			}
+			if body, err := parseJ(fw.Requests[0].Body); err == nil {
+				if r.Bool() {
+					body["object"] = inner
+				} else {
+					body["object"] = J{"type": "Note", "id": fmt.Sprintf("https://%s/n/deeptop", hostR), "inReplyTo": inner, "tag": inner}
+				}
+				fw.Requests[0].Body = mustJSON(body)
+				fw.Gen += fmt.Sprintf(" deep:%d", depth)
+				c.Exec(fw)
+			}
+		}
+		return
 	}
 	if r.Intn(5) == 0 {
 		// a body whose object carries a member of every literal kind of the vocabularies, with one hostile lexical form
